@@ -226,6 +226,10 @@ func (pb *PrimaryBlock) UnmarshalCbor(r io.Reader) error {
 		}
 	}
 
+	if hasCRCField := blockLen == 9 || blockLen == 11; hasCRCField != pb.HasCRC() {
+		return fmt.Errorf("array of %d elements does not match CRC type %v", blockLen, pb.CRCType)
+	}
+
 	if blockLen == 9 || blockLen == 11 {
 		if crcCalc, crcErr := calculateCRCBuff(crcBuff, pb.CRCType); crcErr != nil {
 			return crcErr
